@@ -384,3 +384,99 @@ pub fn main(a: &Args) -> i32 {
         )
     })
 }
+
+
+/// An application handler panics while serving one request of peer B (an application bug, not an
+/// attack). What the network does about it is its own business - the pinned tree lets the whole
+/// node go down with it - but it never ends up listing a peer whose connection is gone: once B has
+/// left, A (if it is still running) reports B lost within the idle timeout, and if A went down
+/// with the panic it lists nobody and its subscribers see the end of the stream.
+pub fn handler_panic(_a: &Args) -> i32 {
+    let mut mismatches: Vec<Value> = Vec::new();
+    let mut evaluations = 0u64;
+    for variant in 0..4u64 {
+        evaluations += 1;
+        let out = crate::sim::run_sim(900 + variant, move |mut sim| async move {
+            let o = Opts { nodes: 3, ops: 0, faults: false, restarts: false, known: false, limit: None, idle_ms: 4_000, keepalive_ms: Some(1_000), hetero: false };
+            let keys = sim::sorted_keys(3, &mut sim.rng);
+            for k in keys {
+                sim.add_node(node_cfg(k, &o)).map_err(|e| e.to_string())?;
+            }
+            let (a, b, c) = (0usize, 1usize, 2usize);
+            // who dialed whom does not matter
+            if variant % 2 == 0 {
+                sim.connect(b, sim.addr(a), Some(sim.peer_id(a))).await.map_err(|e| format!("setup: {e}"))?;
+            } else {
+                sim.connect(a, sim.addr(b), Some(sim.peer_id(b))).await.map_err(|e| format!("setup: {e}"))?;
+            }
+            sim.connect(c, sim.addr(a), Some(sim.peer_id(a))).await.map_err(|e| format!("setup: {e}"))?;
+            let (mut events, _) = sim.net(a).subscribe().map_err(|e| e.to_string())?;
+            settle(&mut sim, 50).await;
+            // B's request makes A's handler panic
+            let net_b = sim.net(b).clone();
+            let pa = sim.peer_id(a);
+            let _ = tokio::time::timeout(std::time::Duration::from_secs(5),
+                net_b.rpc(pa, Request::new(Bytes::from_static(b"boom")).with_route("/panic").with_header("panic", "1"))).await;
+            settle(&mut sim, 100).await;
+            // then B leaves: by hanging up (variants 0, 1) or by shutting down (2, 3)
+            if variant < 2 {
+                sim.disconnect(b, pa);
+            } else {
+                shutdown(&mut sim, b).await;
+            }
+            settle(&mut sim, 4_000 + 1_000 + 2_000).await;
+            let a_closed = sim.net(a).is_closed();
+            let pb = sim.peer_id(b);
+            let lists_b = sim.net(a).peers().contains(&pb);
+            let mut saw_lost = false;
+            let mut stream_ended = false;
+            loop {
+                match events.try_recv() {
+                    Ok(anemo::types::PeerEvent::LostPeer(p, _)) if p == pb => saw_lost = true,
+                    Ok(_) => {}
+                    Err(tokio::sync::broadcast::error::TryRecvError::Closed) => { stream_ended = true; break; }
+                    Err(_) => break,
+                }
+            }
+            let mut bad = Vec::new();
+            if lists_b {
+                bad.push(format!("A still lists B {} s after B left (A closed: {a_closed})", 7));
+            }
+            if !a_closed && !saw_lost {
+                bad.push("A is still running but never reported B lost".to_string());
+            }
+            if a_closed && !sim.net(a).peers().is_empty() {
+                bad.push("A went down with the panic but still lists peers".to_string());
+            }
+            if a_closed && !stream_ended {
+                // (the event stream of a network that is gone ends)
+                bad.push("A went down with the panic but its event stream is still open".to_string());
+            }
+            // what is left is shut down quietly
+            for i in [a, c] {
+                if let Some(net) = sim.nodes[i].net.clone() {
+                    let _ = tokio::time::timeout(std::time::Duration::from_secs(30), net.shutdown()).await;
+                    sim.nodes[i].net = None;
+                }
+            }
+            sim.nodes[b].net = None;
+            Ok(json!({"bad": bad, "a_closed": a_closed}))
+        });
+        match out.result {
+            Ok(v) => {
+                for b in v["bad"].as_array().cloned().unwrap_or_default() {
+                    mismatches.push(json!({"what": format!("handler panic, variant {variant}: {}", b.as_str().unwrap_or(""))}));
+                }
+            }
+            Err(e) => mismatches.push(json!({"what": format!("handler-panic scenario failed (variant {variant}): {e}")})),
+        }
+        for p in out.panics {
+            if !p.contains(sim::DELIBERATE_HANDLER_PANIC) && !p.contains("JoinError::Panic") {
+                mismatches.push(json!({"what": format!("handler panic, variant {variant}: another panic followed: {}", &p[..p.len().min(200)])}));
+            }
+        }
+    }
+    mismatches.truncate(6);
+    super::print_summary(&json!({"evaluations": evaluations, "rows": 4, "mismatches": mismatches}));
+    0
+}
